@@ -1,1 +1,968 @@
-From Flaxm Require Import Lib.Harness Model.Graph.
+(* Proofs about Model/Graph.v: the flatten/unflatten round trip is a graph isomorphism (cycles and sharing
+   included), filtered split partitions the leaves, merge does not depend on the order of the states,
+   update and pop frames. *)
+From Coq Require Import Lia Permutation.
+From Flaxm Require Import Lib.Harness Model.NnxFilters Model.Graph Proofs.NnxFilters.
+
+(* ------------------------------------------------------------------------------------------------ *)
+(* 1. renaming of a heap by the numbering ref_index computes                                          *)
+
+Fixpoint rv (ri : list loc) (v : value) : option value :=
+  match v with
+  | VRef l => option_map VRef (index_of l ri)
+  | VStatic s => Some (VStatic s)
+  | VArr a => Some (VArr a)
+  | VTree kd xs =>
+      option_map (VTree kd)
+        ((fix go (xs : list (key * value)) : option (list (key * value)) :=
+            match xs with
+            | [] => Some []
+            | (k, x) :: r => match rv ri x, go r with Some x', Some r' => Some ((k, x') :: r') | _, _ => None end
+            end) xs)
+  end.
+Fixpoint rattrs (ri : list loc) (xs : list (key * value)) : option (list (key * value)) :=
+  match xs with
+  | [] => Some []
+  | (k, x) :: r => match rv ri x, rattrs ri r with Some x', Some r' => Some ((k, x') :: r') | _, _ => None end
+  end.
+Lemma rv_tree ri kd xs : rv ri (VTree kd xs) = option_map (VTree kd) (rattrs ri xs).
+Proof. cbn [rv]. f_equal. induction xs as [|[k x] r IH]; cbn [rattrs]; [reflexivity|]. now rewrite IH. Qed.
+Definition ro (ri : list loc) (o : obj) : option obj :=
+  match o with OVar t p m => Some (OVar t p m) | ONode ty xs => option_map (ONode ty) (rattrs ri xs) end.
+
+Section ValueInd.
+  Variable P : value -> Prop.
+  Hypothesis Href : forall l, P (VRef l).
+  Hypothesis Hst : forall s, P (VStatic s).
+  Hypothesis Harr : forall a, P (VArr a).
+  Hypothesis Htree : forall kd xs, Forall (fun kv => P (snd kv)) xs -> P (VTree kd xs).
+  Fixpoint value_ind' (v : value) : P v :=
+    match v with
+    | VRef l => Href l
+    | VStatic s => Hst s
+    | VArr a => Harr a
+    | VTree kd xs => Htree kd xs ((fix go (xs : list (key * value)) : Forall (fun kv => P (snd kv)) xs :=
+                                     match xs with [] => Forall_nil _ | kv :: r => Forall_cons kv (value_ind' (snd kv)) (go r) end) xs)
+    end.
+End ValueInd.
+
+Lemma index_of_app_some l ri e i : index_of l ri = Some i -> index_of l (ri ++ e) = Some i.
+Proof. revert i; induction ri as [|x xs IH]; simpl; intros i H; [discriminate|].
+  destruct (Nat.eqb x l); [assumption|].
+  destruct (index_of l xs) eqn:E; simpl in H; [|discriminate]. rewrite (IH _ eq_refl). exact H. Qed.
+Lemma index_of_app_new l ri : index_of l ri = None -> index_of l (ri ++ [l]) = Some (length ri).
+Proof. induction ri as [|x xs IH]; simpl; intros H.
+  - now rewrite Nat.eqb_refl.
+  - destruct (Nat.eqb x l); [discriminate|]. destruct (index_of l xs); [discriminate|]. now rewrite IH. Qed.
+Lemma index_of_nth l ri i : index_of l ri = Some i -> nth_error ri i = Some l.
+Proof. revert i; induction ri as [|x xs IH]; simpl; intros i H; [discriminate|].
+  destruct (Nat.eqb_spec x l); [inversion H; subst; reflexivity|].
+  destruct (index_of l xs) eqn:E; simpl in H; [|discriminate]. inversion H; subst. simpl. now apply IH. Qed.
+Lemma index_of_none_not_in l ri : index_of l ri = None -> ~ In l ri.
+Proof. induction ri as [|x xs IH]; simpl; intros H; [tauto|].
+  destruct (Nat.eqb_spec x l); [discriminate|]. destruct (index_of l xs); [discriminate|]. intros [E|E]; [congruence|]. now apply IH. Qed.
+Lemma index_of_in l ri : In l ri -> exists i, index_of l ri = Some i.
+Proof. induction ri as [|x xs IH]; simpl; intros H; [tauto|].
+  destruct (Nat.eqb_spec x l); [eauto|]. destruct H as [H|H]; [congruence|]. destruct (IH H) as [i ->]. simpl; eauto. Qed.
+(* the numbering is injective: two objects get the same index only if they are the same object *)
+Lemma index_of_inj l1 l2 ri i : index_of l1 ri = Some i -> index_of l2 ri = Some i -> l1 = l2.
+Proof. intros H1 H2. apply index_of_nth in H1, H2. congruence. Qed.
+
+Lemma rv_mono ri e v : forall v', rv ri v = Some v' -> rv (ri ++ e) v = Some v'.
+Proof.
+  induction v as [l|s|a|kd xs IH] using value_ind'; intros v' H; try exact H.
+  - cbn [rv] in *. destruct (index_of l ri) eqn:E; simpl in H; [|discriminate]. now rewrite (index_of_app_some _ _ e _ E).
+  - rewrite rv_tree in *. destruct (rattrs ri xs) as [ys|] eqn:E; [|discriminate]. simpl in H.
+    assert (R : rattrs (ri ++ e) xs = Some ys).
+    { clear H. revert ys E. induction IH as [|[k x] r Hx _ IHr]; intros ys E; cbn [rattrs] in *; [exact E|].
+      destruct (rv ri x) eqn:Ex; [|discriminate]. destruct (rattrs ri r) eqn:Er; [|discriminate].
+      simpl in Hx. rewrite (Hx _ Ex), (IHr _ eq_refl). exact E. }
+    now rewrite R.
+Qed.
+Lemma rattrs_mono ri e xs xs' : rattrs ri xs = Some xs' -> rattrs (ri ++ e) xs = Some xs'.
+Proof. revert xs'; induction xs as [|[k v] r IH]; cbn [rattrs]; intros xs' H; [exact H|].
+  destruct (rv ri v) eqn:Ev; [|discriminate]. destruct (rattrs ri r) eqn:Er; [|discriminate].
+  rewrite (rv_mono _ e _ _ Ev), (IH _ eq_refl). exact H. Qed.
+Lemma ro_mono ri e o o' : ro ri o = Some o' -> ro (ri ++ e) o = Some o'.
+Proof. destruct o as [ty xs|t p m]; simpl; [|auto]. destruct (rattrs ri xs) eqn:E; simpl; [|discriminate].
+  intros H; rewrite (rattrs_mono _ e _ _ E); exact H. Qed.
+
+Lemma nth_error_app_l {A} (l e : list A) i x : nth_error l i = Some x -> nth_error (l ++ e) i = Some x.
+Proof. intros H. rewrite nth_error_app1; [exact H|]. apply nth_error_Some. congruence. Qed.
+
+Lemma set_nth_app_mid {A} (h : list A) x y r : set_nth (length h) y (h ++ x :: r) = h ++ y :: r.
+Proof. induction h as [|a h IH]; simpl; [reflexivity|]. now rewrite IH. Qed.
+
+(* ------------------------------------------------------------------------------------------------ *)
+(* 2. the joint invariant of _graph_flatten and _graph_unflatten                                     *)
+
+(* index_ref maps every index allocated so far to the location with the same number *)
+Definition ir_ok (n : nat) (ir : list (nat * loc)) : Prop := forall i, i < n -> iassoc i ir = Some i.
+
+Lemma ir_ok_cons n ir : ir_ok n ir -> ir_ok (S n) ((n, n) :: ir).
+Proof. intros H i Hi. cbn [iassoc]. destruct (Nat.eqb_spec i n); [now subst|]. apply H. lia. Qed.
+
+(* what the rebuilt cells look like: cell j of the new part is the renaming of the cell of the j-th new object *)
+Definition cells_ok (h : heap) (ri : list loc) (ext : list loc) (news : heap) : Prop :=
+  length news = length ext /\
+  forall j l, nth_error ext j = Some l ->
+    exists o0 o, nth_error h l = Some o0 /\ ro ri o0 = Some o /\ nth_error news j = Some o.
+
+Definition Good (h : heap) (s : fst_) (v : value) (a : gattr) (s' : fst_) : Prop :=
+  exists ext newls v',
+    fst s' = fst s ++ ext /\ snd s' = snd s ++ newls /\
+    (NoDup (fst s) -> NoDup (fst s')) /\
+    rv (fst s') v = Some v' /\
+    forall h2 ir tail,
+      length h2 = length (fst s) -> ir_ok (length h2) ir ->
+      exists news ir',
+        unflat a (h2, ir, map snd newls ++ tail) = Some (v', (h2 ++ news, ir', tail)) /\
+        ir_ok (length h2 + length ext) ir' /\ cells_ok h (fst s') ext news.
+
+Definition GoodItems (h : heap) (s : fst_) (xs : list (key * value)) (as_ : list (key * gattr)) (s' : fst_) : Prop :=
+  exists ext newls vs,
+    fst s' = fst s ++ ext /\ snd s' = snd s ++ newls /\
+    (NoDup (fst s) -> NoDup (fst s')) /\
+    rattrs (fst s') xs = Some vs /\
+    forall h2 ir tail,
+      length h2 = length (fst s) -> ir_ok (length h2) ir ->
+      exists news ir',
+        uitems_with unflat as_ (h2, ir, map snd newls ++ tail) = Some (vs, (h2 ++ news, ir', tail)) /\
+        ir_ok (length h2 + length ext) ir' /\ cells_ok h (fst s') ext news.
+
+Lemma cells_ok_nil h ri : cells_ok h ri [] [].
+Proof. split; [reflexivity|]. intros [|j] l H; discriminate. Qed.
+
+Lemma cells_ok_app h ri e1 e2 n1 n2 :
+  cells_ok h ri e1 n1 -> cells_ok h ri e2 n2 -> cells_ok h ri (e1 ++ e2) (n1 ++ n2).
+Proof.
+  intros [L1 C1] [L2 C2]. split; [rewrite !app_length; lia|].
+  intros j l Hj. destruct (Nat.ltb_spec j (length e1)) as [Hlt|Hge].
+  - rewrite nth_error_app1 in Hj by exact Hlt. destruct (C1 _ _ Hj) as (o0 & o & A & B & C).
+    exists o0, o. repeat split; auto. rewrite nth_error_app1 by lia. exact C.
+  - rewrite nth_error_app2 in Hj by exact Hge. destruct (C2 _ _ Hj) as (o0 & o & A & B & C).
+    exists o0, o. repeat split; auto. rewrite nth_error_app2 by lia. now rewrite L1.
+Qed.
+
+Lemma cells_ok_mono h ri e ext news : cells_ok h ri ext news -> cells_ok h (ri ++ e) ext news.
+Proof. intros [L C]. split; [exact L|]. intros j l Hj. destruct (C _ _ Hj) as (o0 & o & A & B & D).
+  exists o0, o. repeat split; auto. now apply ro_mono. Qed.
+
+Lemma items_with_cons rec p k v r s :
+  items_with rec p ((k, v) :: r) s =
+  match rec (p ++ [k]) v s with
+  | None => None
+  | Some (a, s1) => match items_with rec p r s1 with None => None | Some (as_, s2) => Some ((k, a) :: as_, s2) end
+  end.
+Proof. reflexivity. Qed.
+Lemma uitems_with_cons rec k a r s :
+  uitems_with rec ((k, a) :: r) s =
+  match rec a s with
+  | None => None
+  | Some (v, s1) => match uitems_with rec r s1 with None => None | Some (vs, s2) => Some ((k, v) :: vs, s2) end
+  end.
+Proof. reflexivity. Qed.
+Lemma unflat_tree kd attrs s :
+  unflat (ASub (GTree kd attrs)) s =
+  match uitems_with unflat attrs s with None => None | Some (vs, s') => Some (VTree kd vs, s') end.
+Proof. destruct s as [[h ir] ls]; reflexivity. Qed.
+Lemma unflat_node ty i attrs (h : heap) (ir : list (nat * loc)) (ls : list leaf) :
+  unflat (ASub (GNode ty i attrs)) (h, ir, ls) =
+  match uitems_with unflat attrs (h ++ [ONode ty []], @pair nat loc i (length h) :: ir, ls) with
+  | None => None
+  | Some (vs, (h', ir', ls')) => Some (VRef (length h), (set_nth (length h) (ONode ty vs) h', ir', ls'))
+  end.
+Proof. reflexivity. Qed.
+
+Lemma items_good h rec :
+  (forall p v s a s', rec p v s = Some (a, s') -> Good h s v a s') ->
+  forall xs p s as_ s', items_with rec p xs s = Some (as_, s') -> GoodItems h s xs as_ s'.
+Proof.
+  intros Hrec xs; induction xs as [|[k v] r IH]; intros p s as_ s' H.
+  - cbn in H. inversion H; subst. exists [], [], []. rewrite !app_nil_r. repeat split; auto.
+    intros h2 ir tail L I. exists [], ir. cbn. rewrite app_nil_r, Nat.add_0_r. repeat split; auto.
+    intros [|j] l Hj; discriminate.
+  - rewrite items_with_cons in H.
+    destruct (rec (p ++ [k]) v s) as [[a s1]|] eqn:E1; [|discriminate].
+    destruct (items_with rec p r s1) as [[as1 s2]|] eqn:E2; [|discriminate].
+    inversion H; subst; clear H.
+    destruct (Hrec _ _ _ _ _ E1) as (e1 & n1 & v1 & Hf1 & Hs1 & Hn1 & Hv1 & Hu1).
+    destruct (IH _ _ _ _ E2) as (e2 & n2 & vs2 & Hf2 & Hs2 & Hn2 & Hr2 & Hu2).
+    exists (e1 ++ e2), (n1 ++ n2), ((k, v1) :: vs2).
+    split; [rewrite Hf2, Hf1, app_assoc; reflexivity|].
+    split; [rewrite Hs2, Hs1, app_assoc; reflexivity|].
+    split; [auto|]. split.
+    + cbn [rattrs]. rewrite Hr2, Hf2, (rv_mono _ e2 _ _ Hv1). reflexivity.
+    + intros h2 ir tail L I.
+      destruct (Hu1 h2 ir (map snd n2 ++ tail) L I) as (news1 & ir1 & U1 & I1 & C1).
+      assert (L1 : length news1 = length e1) by (destruct C1; assumption).
+      destruct (Hu2 (h2 ++ news1) ir1 tail) as (news2 & ir2 & U2 & I2 & C2).
+      { rewrite app_length, Hf1, app_length. lia. }
+      { rewrite app_length, L1. exact I1. }
+      exists (news1 ++ news2), ir2. split; [|split].
+      * replace (map snd (n1 ++ n2) ++ tail) with (map snd n1 ++ map snd n2 ++ tail) by (rewrite map_app, <- app_assoc; reflexivity).
+        rewrite uitems_with_cons, U1, U2, app_assoc. reflexivity.
+      * rewrite app_length in I2 |- *. rewrite L1 in I2. now rewrite Nat.add_assoc.
+      * apply cells_ok_app; [|exact C2]. rewrite Hf2. now apply cells_ok_mono.
+Qed.
+
+Theorem flat_good : forall fuel h p v s a s', flat fuel h p v s = Some (a, s') -> Good h s v a s'.
+Proof.
+  induction fuel as [|f IH]; intros h p v s a s' H; [discriminate|]. cbn [flat] in H.
+  destruct v as [l|x|x|kd xs].
+  - (* reference *)
+    destruct (index_of l (fst s)) as [i|] eqn:Ei.
+    { inversion H; subst. exists [], [], (VRef i). rewrite !app_nil_r. repeat split; auto.
+      - cbn [rv]. now rewrite Ei.
+      - intros h2 ir tail L I. exists [], ir. cbn [unflat map app].
+        assert (Hi : i < length h2). { rewrite L. apply index_of_nth in Ei. apply nth_error_Some. congruence. }
+        rewrite (I _ Hi), app_nil_r, Nat.add_0_r. repeat split; auto. intros [|j] l0 Hj; discriminate. }
+    destruct (nth_error h l) as [[ty attrs|vty pl m]|] eqn:Eh; [| |discriminate].
+    + destruct (items_with (flat f h) p attrs (fst s ++ [l], snd s)) as [[as_ s1]|] eqn:Eit; [|discriminate].
+      inversion H; subst; clear H.
+      destruct (items_good h (flat f h) (fun p v s a s' => IH h p v s a s') _ _ _ _ _ Eit) as (e & n & vs & Hf & Hs & Hn & Hr & Hu).
+      cbn [fst snd] in Hf, Hs, Hn.
+      assert (Hf' : fst s' = fst s ++ l :: e) by (rewrite Hf, <- app_assoc; reflexivity).
+      exists (l :: e), n, (VRef (length (fst s))).
+      split; [exact Hf'|]. split; [exact Hs|]. split; [|split].
+      * intros ND. apply Hn. apply NoDup_app_remove_l with (l := []) || idtac.
+        clear - ND Ei. apply index_of_none_not_in in Ei.
+        induction (fst s) as [|x r IHr]; simpl; [constructor; [tauto|constructor]|].
+        inversion ND; subst. constructor.
+        -- intros Hin. apply in_app_or in Hin as [Hin|[Hin|[]]]; [tauto|]. subst. apply Ei. now left.
+        -- apply IHr; auto. intros Hin. apply Ei. now right.
+      * cbn [rv]. rewrite Hf, (index_of_app_some l (fst s ++ [l]) e (length (fst s))); [reflexivity|]. now apply index_of_app_new.
+      * intros h2 ir tail L I. rewrite unflat_node.
+        destruct (Hu (h2 ++ [ONode ty []]) (@pair nat loc (length (fst s)) (length h2) :: ir) tail) as (news & ir' & U & I' & C).
+        { cbn [fst]. rewrite !app_length. simpl. lia. }
+        { rewrite app_length. simpl. rewrite Nat.add_1_r, <- L. now apply ir_ok_cons. }
+        exists (ONode ty vs :: news), ir'. split; [|split].
+        -- rewrite U, <- app_assoc. cbn [app]. rewrite set_nth_app_mid, L. reflexivity.
+        -- rewrite app_length in I'. simpl in I' |- *. now rewrite <- Nat.add_assoc in I'.
+        -- destruct C as [LC CC]. split; [simpl; now rewrite LC|].
+           intros [|j] l0 Hj; cbn [nth_error] in *.
+           ++ inversion Hj; subst l0. exists (ONode ty attrs), (ONode ty vs). repeat split; auto.
+              cbn [ro]. now rewrite Hr.
+           ++ exact (CC _ _ Hj).
+    + inversion H; subst; clear H. cbn [fst snd].
+      exists [l], [(p, LVar vty pl m)], (VRef (length (fst s))).
+      split; [reflexivity|]. split; [reflexivity|]. split; [|split].
+      * intros ND. apply index_of_none_not_in in Ei. clear - ND Ei.
+        induction (fst s) as [|x r IHr]; simpl; [constructor; [tauto|constructor]|].
+        inversion ND; subst. constructor.
+        -- intros Hin. apply in_app_or in Hin as [Hin|[Hin|[]]]; [tauto|]. subst. apply Ei. now left.
+        -- apply IHr; auto. intros Hin. apply Ei. now right.
+      * cbn [rv fst]. now rewrite (index_of_app_new _ _ Ei).
+      * intros h2 ir tail L I. cbn [unflat map snd app]. rewrite <- L.
+        exists [OVar vty pl m], ((length h2, length h2) :: ir). split; [reflexivity|]. split.
+        -- simpl. rewrite Nat.add_1_r. now apply ir_ok_cons.
+        -- split; [reflexivity|]. intros [|[|j]] l0 Hj; try discriminate. inversion Hj; subst l0.
+           exists (OVar vty pl m), (OVar vty pl m). repeat split; auto.
+  - (* static *)
+    inversion H; subst. exists [], [], (VStatic x). rewrite !app_nil_r. repeat split; auto.
+    intros h2 ir tail L I. exists [], ir. cbn. rewrite app_nil_r, Nat.add_0_r. repeat split; auto.
+    intros [|j] l Hj; discriminate.
+  - (* array *)
+    inversion H; subst. cbn [fst snd]. exists [], [(p, LArr x)], (VArr x). rewrite !app_nil_r. repeat split; auto.
+    intros h2 ir tail L I. exists [], ir. cbn. rewrite app_nil_r, Nat.add_0_r. repeat split; auto.
+    intros [|j] l Hj; discriminate.
+  - (* list / tuple / dict *)
+    destruct (items_with (flat f h) p xs s) as [[as_ s1]|] eqn:Eit; [|discriminate].
+    inversion H; subst; clear H.
+    destruct (items_good h (flat f h) (fun p v s a s' => IH h p v s a s') _ _ _ _ _ Eit) as (e & n & vs & Hf & Hs & Hn & Hr & Hu).
+    exists e, n, (VTree kd vs). repeat split; auto.
+    + rewrite rv_tree, Hr. reflexivity.
+    + intros h2 ir tail L I. destruct (Hu h2 ir tail L I) as (news & ir' & U & I' & C).
+      exists news, ir'. rewrite unflat_tree, U. auto.
+Qed.
+
+(* ------------------------------------------------------------------------------------------------ *)
+(* 3. merge(split(g)) is isomorphic to g                                                              *)
+
+(* ri lists the reference objects reachable from v (each once); the rebuilt heap has exactly one cell per
+   reachable object, cell i being the cell of the i-th object with every reference l replaced by its number;
+   the rebuilt root is the old root renamed the same way.  The renaming is injective (index_of_inj), so two
+   paths reach the same object afterwards exactly when they did before. *)
+Definition iso (h : heap) (v : value) (ri : list loc) (h' : heap) (v' : value) : Prop :=
+  NoDup ri /\ length h' = length ri /\ rv ri v = Some v' /\
+  forall i l, nth_error ri i = Some l ->
+    exists o0 o, nth_error h l = Some o0 /\ ro ri o0 = Some o /\ nth_error h' i = Some o.
+
+Theorem roundtrip_iso h v g ls :
+  flatten h v = Some (g, ls) ->
+  exists ri h' v', unflatten g (map snd ls) = Some (h', v') /\ iso h v ri h' v'.
+Proof.
+  unfold flatten. destruct (flat (fuel_for h v) h [] v ([], [])) as [[a s]|] eqn:E; [|discriminate].
+  intros H; inversion H; subst; clear H.
+  destruct (flat_good _ _ _ _ _ _ _ E) as (ext & newls & v' & Hf & Hs & Hn & Hv & Hu).
+  cbn [fst snd app] in Hf, Hs, Hn.
+  destruct (Hu [] [] [] eq_refl) as (news & ir' & U & _ & [LC CC]).
+  { intros i Hi; simpl in Hi; lia. }
+  exists (fst s), news, v'. unfold unflatten. rewrite Hs. rewrite app_nil_r in U. rewrite U. cbn [app].
+  split; [reflexivity|]. split; [apply Hn; constructor|]. split; [now rewrite Hf|]. split; [exact Hv|].
+  intros i l Hi. rewrite Hf in Hi. exact (CC _ _ Hi).
+Qed.
+
+(* ------------------------------------------------------------------------------------------------ *)
+(* 4. consequences for paths: the same paths exist, with the same shapes, and two paths reach the     *)
+(*    same object after the round trip exactly when they did before                                   *)
+
+Inductive shape_t := SNode (ty : N) (keys : list key) | SVar (t p m : N) | SStatic (s : N) | SArr (a : N) | STree (kd : N) (keys : list key) | SDangling.
+Definition shape (h : heap) (u : value) : shape_t :=
+  match u with
+  | VRef l => match nth_error h l with
+              | Some (ONode ty attrs) => SNode ty (map fst attrs)
+              | Some (OVar t p m) => SVar t p m
+              | None => SDangling end
+  | VStatic s => SStatic s
+  | VArr a => SArr a
+  | VTree kd xs => STree kd (map fst xs)
+  end.
+
+Lemma kassoc_rattrs ri k xs ys v : rattrs ri xs = Some ys -> kassoc k xs = Some v ->
+  exists v', kassoc k ys = Some v' /\ rv ri v = Some v'.
+Proof.
+  revert ys; induction xs as [|[k0 x] r IH]; cbn [rattrs kassoc]; intros ys H K; [discriminate|].
+  destruct (rv ri x) as [x'|] eqn:Ex; [|discriminate]. destruct (rattrs ri r) as [r'|] eqn:Er; [|discriminate].
+  inversion H; subst; clear H. cbn [kassoc]. destruct (N.eqb k k0).
+  - inversion K; subst. eauto.
+  - apply (IH _ eq_refl K).
+Qed.
+Lemma kassoc_rattrs_inv ri k xs ys v' : rattrs ri xs = Some ys -> kassoc k ys = Some v' ->
+  exists v, kassoc k xs = Some v /\ rv ri v = Some v'.
+Proof.
+  revert ys; induction xs as [|[k0 x] r IH]; cbn [rattrs kassoc]; intros ys H K.
+  - inversion H; subst. discriminate.
+  - destruct (rv ri x) as [x'|] eqn:Ex; [|discriminate]. destruct (rattrs ri r) as [r'|] eqn:Er; [|discriminate].
+    inversion H; subst; clear H. cbn [kassoc] in K. destruct (N.eqb k k0).
+    + inversion K; subst. eauto.
+    + apply (IH _ eq_refl K).
+Qed.
+Lemma rattrs_keys ri xs ys : rattrs ri xs = Some ys -> map fst ys = map fst xs.
+Proof.
+  revert ys; induction xs as [|[k0 x] r IH]; cbn [rattrs]; intros ys H; [now inversion H|].
+  destruct (rv ri x) as [x'|]; [|discriminate]. destruct (rattrs ri r) as [r'|] eqn:Er; [|discriminate].
+  inversion H; subst. simpl. f_equal. now apply IH.
+Qed.
+
+Lemma iso_cell h v ri h' v' l i : iso h v ri h' v' -> index_of l ri = Some i ->
+  exists o0 o, nth_error h l = Some o0 /\ ro ri o0 = Some o /\ nth_error h' i = Some o.
+Proof. intros (_ & _ & _ & C) H. apply index_of_nth in H. exact (C _ _ H). Qed.
+
+Lemma resolve_fwd h v ri h' v' : iso h v ri h' v' ->
+  forall fuel p w x u, rv ri w = Some x -> resolve fuel h w p = Some u ->
+    exists u', resolve fuel h' x p = Some u' /\ rv ri u = Some u'.
+Proof.
+  intros I. induction fuel as [|f IH]; intros p w x u Hw R; [discriminate|]. cbn [resolve] in *.
+  destruct p as [|k r]; [inversion R; subst; eauto|].
+  destruct w as [l|s|a|kd xs]; try discriminate.
+  - cbn [rv] in Hw. destruct (index_of l ri) as [i|] eqn:Ei; [|discriminate]. inversion Hw; subst x.
+    destruct (iso_cell _ _ _ _ _ _ _ I Ei) as (o0 & o & A & B & C). rewrite A in R. rewrite C.
+    destruct o0 as [ty attrs|t pl m]; [|discriminate]. cbn [ro] in B.
+    destruct (rattrs ri attrs) as [vs|] eqn:Er; [|discriminate]. inversion B; subst o.
+    destruct (kassoc k attrs) as [v1|] eqn:K; [|discriminate].
+    destruct (kassoc_rattrs _ _ _ _ _ Er K) as (v1' & K' & Hv1). rewrite K'. exact (IH _ _ _ _ Hv1 R).
+  - rewrite rv_tree in Hw. destruct (rattrs ri xs) as [vs|] eqn:Er; [|discriminate]. inversion Hw; subst x.
+    destruct (kassoc k xs) as [v1|] eqn:K; [|discriminate].
+    destruct (kassoc_rattrs _ _ _ _ _ Er K) as (v1' & K' & Hv1). rewrite K'. exact (IH _ _ _ _ Hv1 R).
+Qed.
+
+Lemma resolve_bwd h v ri h' v' : iso h v ri h' v' ->
+  forall fuel p w x u', rv ri w = Some x -> resolve fuel h' x p = Some u' ->
+    exists u, resolve fuel h w p = Some u /\ rv ri u = Some u'.
+Proof.
+  intros I. induction fuel as [|f IH]; intros p w x u' Hw R; [discriminate|]. cbn [resolve] in *.
+  destruct p as [|k r]; [inversion R; subst; eauto|].
+  destruct w as [l|s|a|kd xs]; [cbn [rv] in Hw|cbn [rv] in Hw|cbn [rv] in Hw|rewrite rv_tree in Hw].
+  - destruct (index_of l ri) as [i|] eqn:Ei; [|discriminate]. inversion Hw; subst x.
+    destruct (iso_cell _ _ _ _ _ _ _ I Ei) as (o0 & o & A & B & C). rewrite C in R. rewrite A.
+    destruct o0 as [ty attrs|t pl m]; cbn [ro] in B.
+    + destruct (rattrs ri attrs) as [vs|] eqn:Er; [|discriminate]. inversion B; subst o.
+      destruct (kassoc k vs) as [v1'|] eqn:K; [|discriminate].
+      destruct (kassoc_rattrs_inv _ _ _ _ _ Er K) as (v1 & K' & Hv1). rewrite K'. exact (IH _ _ _ _ Hv1 R).
+    + inversion B; subst o. discriminate.
+  - inversion Hw; subst x. discriminate.
+  - inversion Hw; subst x. discriminate.
+  - destruct (rattrs ri xs) as [vs|] eqn:Er; [|discriminate]. inversion Hw; subst x.
+    destruct (kassoc k vs) as [v1'|] eqn:K; [|discriminate].
+    destruct (kassoc_rattrs_inv _ _ _ _ _ Er K) as (v1 & K' & Hv1). rewrite K'. exact (IH _ _ _ _ Hv1 R).
+Qed.
+
+Lemma shape_rv h v ri h' v' u u' : iso h v ri h' v' -> rv ri u = Some u' -> shape h' u' = shape h u.
+Proof.
+  intros I H. destruct u as [l|s|a|kd xs]; [cbn [rv] in H|cbn [rv] in H|cbn [rv] in H|rewrite rv_tree in H].
+  - destruct (index_of l ri) as [i|] eqn:Ei; [|discriminate]. inversion H; subst u'.
+    destruct (iso_cell _ _ _ _ _ _ _ I Ei) as (o0 & o & A & B & C). cbn [shape]. rewrite A, C.
+    destruct o0 as [ty attrs|t pl m]; cbn [ro] in B.
+    + destruct (rattrs ri attrs) as [vs|] eqn:Er; [|discriminate]. inversion B; subst o. now rewrite (rattrs_keys _ _ _ Er).
+    + now inversion B.
+  - now inversion H.
+  - now inversion H.
+  - destruct (rattrs ri xs) as [vs|] eqn:Er; [|discriminate]. inversion H; subst u'.
+    cbn [shape]. now rewrite (rattrs_keys _ _ _ Er).
+Qed.
+
+Definition at_path (h : heap) (v : value) (p : path) : option value := resolve (S (length p)) h v p.
+Definition same_object (h : heap) (v : value) (p q : path) : Prop :=
+  exists l, at_path h v p = Some (VRef l) /\ at_path h v q = Some (VRef l).
+
+Theorem roundtrip_paths h v g ls :
+  flatten h v = Some (g, ls) ->
+  exists h' v', unflatten g (map snd ls) = Some (h', v') /\
+    (* every path of g exists afterwards and leads to the same kind of thing (type, static value, Variable
+       type / value / metadata, attribute names) *)
+    (forall p u, at_path h v p = Some u -> exists u', at_path h' v' p = Some u' /\ shape h' u' = shape h u) /\
+    (* no path is invented *)
+    (forall p u', at_path h' v' p = Some u' -> exists u, at_path h v p = Some u /\ shape h' u' = shape h u) /\
+    (* sharing and cycles: two paths reach one object afterwards iff they did before *)
+    (forall p q, same_object h v p q <-> same_object h' v' p q).
+Proof.
+  intros F. destruct (roundtrip_iso _ _ _ _ F) as (ri & h' & v' & U & I).
+  exists h', v'. split; [exact U|]. pose proof I as (_ & _ & Hv & _). unfold at_path. split; [|split].
+  - intros p u R. destruct (resolve_fwd _ _ _ _ _ I _ _ _ _ _ Hv R) as (u' & R' & Hu). exists u'. split; [exact R'|]. eapply shape_rv; eauto.
+  - intros p u' R. destruct (resolve_bwd _ _ _ _ _ I _ _ _ _ _ Hv R) as (u & R' & Hu). exists u. split; [exact R'|]. eapply shape_rv; eauto.
+  - intros p q. split.
+    + intros (l & Rp & Rq).
+      destruct (resolve_fwd _ _ _ _ _ I _ _ _ _ _ Hv Rp) as (up & Rp' & Hp).
+      destruct (resolve_fwd _ _ _ _ _ I _ _ _ _ _ Hv Rq) as (uq & Rq' & Hq).
+      cbn [rv] in Hp, Hq. destruct (index_of l ri) as [i|]; [|discriminate]. inversion Hp; inversion Hq; subst.
+      exists i. unfold at_path. auto.
+    + intros (i & Rp & Rq). unfold at_path in *.
+      destruct (resolve_bwd _ _ _ _ _ I _ _ _ _ _ Hv Rp) as (up & Rp' & Hp).
+      destruct (resolve_bwd _ _ _ _ _ I _ _ _ _ _ Hv Rq) as (uq & Rq' & Hq).
+      destruct up as [l1| | |kd1 xs1]; [cbn [rv] in Hp|discriminate|discriminate|rewrite rv_tree in Hp; destruct (rattrs ri xs1); discriminate].
+      destruct uq as [l2| | |kd2 xs2]; [cbn [rv] in Hq|discriminate|discriminate|rewrite rv_tree in Hq; destruct (rattrs ri xs2); discriminate].
+      destruct (index_of l1 ri) as [i1|] eqn:E1; [|discriminate]. destruct (index_of l2 ri) as [i2|] eqn:E2; [|discriminate].
+      inversion Hp; inversion Hq; subst. rewrite (index_of_inj _ _ _ _ E1 E2) in Rp'. exists l2. auto.
+Qed.
+
+(* ------------------------------------------------------------------------------------------------ *)
+(* 5. filtered split: a partition by first match                                                      *)
+
+Section NfiltInd.
+  Variable P : nfilt -> Prop.
+  Hypothesis H1 : forall t, P (NType t).
+  Hypothesis H2 : forall s, P (NTag s).
+  Hypothesis H3 : forall k, P (NPathContains k).
+  Hypothesis H4 : forall ps, P (NPathIn ps).
+  Hypothesis H5 : forall l, Forall P l -> P (NAny l).
+  Hypothesis H6 : forall l, Forall P l -> P (NAll l).
+  Hypothesis H7 : forall f, P f -> P (NNot f).
+  Hypothesis H8 : forall b, P (NBool b).
+  Hypothesis H9 : P NEllipsis.
+  Hypothesis H10 : P NNone.
+  Hypothesis H11 : forall l, Forall P l -> P (NSeq l).
+  Fixpoint nfilt_ind' (f : nfilt) : P f :=
+    let go := fix go (l : list nfilt) : Forall P l := match l with [] => Forall_nil _ | x :: r => Forall_cons x (nfilt_ind' x) (go r) end in
+    match f with
+    | NType t => H1 t | NTag s => H2 s | NPathContains k => H3 k | NPathIn ps => H4 ps
+    | NAny l => H5 l (go l) | NAll l => H6 l (go l) | NNot g => H7 g (nfilt_ind' g)
+    | NBool b => H8 b | NEllipsis => H9 | NNone => H10 | NSeq l => H11 l (go l)
+    end.
+End NfiltInd.
+
+(* the identifying tag of a leaf is invisible to predicates *)
+Lemma denote_lid f p m t i j : denote f (mkLeaf p m t i) = denote f (mkLeaf p m t j).
+Proof.
+  induction f as [| | | |l IH|l IH|g IH| | | |l IH] using nfilt_ind'; cbn [denote lmro ltag lpath]; try reflexivity.
+  - induction IH as [|x r Hx _ IHr]; cbn [existsb]; [reflexivity|]. now rewrite Hx, IHr.
+  - induction IH as [|x r Hx _ IHr]; cbn [forallb]; [reflexivity|]. now rewrite Hx, IHr.
+  - now rewrite IH.
+  - induction IH as [|x r Hx _ IHr]; cbn [existsb]; [reflexivity|]. now rewrite Hx, IHr.
+Qed.
+Lemma first_idx_tag ti fs x i : first_idx fs (leaf_view ti x i) = first_idx fs (leaf_view ti x 0).
+Proof.
+  induction fs as [|f r IH]; cbn [first_idx]; [reflexivity|]. rewrite IH.
+  unfold leaf_view. destruct (snd x); now rewrite (denote_lid f _ _ _ i 0%N).
+Qed.
+
+Lemma map_fst_combine {A B} (l : list A) (l' : list B) : length l = length l' -> map fst (combine l l') = l.
+Proof. revert l'; induction l as [|a r IH]; intros [|b r'] H; simpl in *; try discriminate; [reflexivity|]. f_equal. apply IH. lia. Qed.
+
+Theorem split_leaves_spec ti fs ls bs :
+  split_leaves ti fs ls = Some bs ->
+  length bs = length fs /\
+  Permutation (concat bs) ls /\
+  (forall i b x, nth_error bs i = Some b -> In x b -> first_idx fs (leaf_view ti x 0) = i) /\
+  (forall x, In x ls -> first_idx fs (leaf_view ti x 0) < length fs).
+Proof.
+  unfold split_leaves. cbv zeta. destruct (negb (ellipsis_ok fs)); [discriminate|].
+  set (tagged := combine ls (map N.of_nat (seq 0 (length ls)))).
+  set (idx := fun pl_i : fleaf * N => first_idx fs (leaf_view ti (fst pl_i) (snd pl_i))).
+  match goal with |- (if ?c then _ else _) = _ -> _ => destruct c eqn:Ex end; intros H; [discriminate H|].
+  change (existsb (fun pl_i => Nat.eqb (idx pl_i) (length fs)) tagged = false) in Ex.
+  inversion H; subst bs; clear H.
+  match goal with |- context[map ?F (seq 0 (length fs))] =>
+    change F with (fun i => map fst (filter (fun pl_i => Nat.eqb (idx pl_i) i) tagged)) end.
+  assert (Hlt : forall y, In y tagged -> idx y < length fs).
+  { intros y Hy. pose proof (first_idx_le fs (leaf_view ti (fst y) (snd y))) as Hle. fold (idx y) in Hle.
+    destruct (Nat.eqb_spec (idx y) (length fs)) as [E|E]; [|lia].
+    exfalso. assert (X : existsb (fun pl_i => Nat.eqb (idx pl_i) (length fs)) tagged = true).
+    { apply existsb_exists. exists y. split; [exact Hy|]. now apply Nat.eqb_eq. }
+    congruence. }
+  assert (Hfst : map fst tagged = ls).
+  { unfold tagged. apply map_fst_combine. now rewrite map_length, seq_length. }
+  split; [now rewrite map_length, seq_length|]. split; [|split].
+  - rewrite <- Hfst.
+    rewrite <- (map_map (fun i => filter (fun pl_i => Nat.eqb (idx pl_i) i) tagged) (map fst)), <- concat_map.
+    apply Permutation_map. eapply Permutation_trans; [apply concat_classes|].
+    rewrite (filter_ext_in _ (fun _ => true)).
+    + clear. induction tagged; simpl; auto.
+    + intros y Hy. specialize (Hlt y Hy). simpl. apply Nat.ltb_lt. exact Hlt.
+  - intros i b x Hb Hx.
+    destruct (Nat.ltb_spec i (length fs)) as [Hi|Hi].
+    2:{ apply nth_error_Some_lt in Hb || idtac. assert (nth_error (map (fun i0 => map fst (filter (fun pl_i => Nat.eqb (idx pl_i) i0) tagged)) (seq 0 (length fs))) i = None) by (apply nth_error_None; rewrite map_length, seq_length; lia). congruence. }
+    rewrite nth_error_map in Hb.
+    assert (E : nth_error (seq 0 (length fs)) i = Some i).
+    { rewrite nth_error_nth' with (d := 0); [|now rewrite seq_length]. now rewrite seq_nth. }
+    rewrite E in Hb. inversion Hb; subst b; clear Hb.
+    apply in_map_iff in Hx as (y & <- & Hy). apply filter_In in Hy as [_ Hy]. apply Nat.eqb_eq in Hy.
+    unfold idx in Hy. now rewrite first_idx_tag in Hy.
+  - intros x Hx. rewrite <- Hfst in Hx. apply in_map_iff in Hx as (y & <- & Hy). specialize (Hlt y Hy).
+    unfold idx in Hlt. now rewrite first_idx_tag in Hlt.
+Qed.
+
+(* each Variable lands in the first matching state and in no other *)
+Corollary split_first_match ti fs ls bs i b x :
+  split_leaves ti fs ls = Some bs -> nth_error bs i = Some b -> In x b ->
+  (exists f, nth_error fs i = Some f /\ denote f (leaf_view ti x 0) = true) /\
+  (forall j g, j < i -> nth_error fs j = Some g -> denote g (leaf_view ti x 0) = false) /\
+  (forall j b', nth_error bs j = Some b' -> In x b' -> j = i).
+Proof.
+  intros S Hb Hx. destruct (split_leaves_spec _ _ _ _ S) as (L & _ & F & _).
+  pose proof (F _ _ _ Hb Hx) as E.
+  assert (Hi : i < length fs). { rewrite <- L. apply nth_error_Some. congruence. }
+  destruct (first_idx_spec _ _ _ E Hi) as [A B]. split; [exact A|]. split; [exact B|].
+  intros j b' Hb' Hx'. rewrite <- (F _ _ _ Hb' Hx'). exact E.
+Qed.
+
+(* ------------------------------------------------------------------------------------------------ *)
+(* 6. merge: the order of the states does not matter                                                  *)
+
+Lemma path_leb_refl a : path_leb a a = true.
+Proof. induction a as [|x a IH]; simpl; [reflexivity|]. now rewrite N.ltb_irrefl. Qed.
+Lemma path_leb_total a b : path_leb a b = true \/ path_leb b a = true.
+Proof.
+  revert b; induction a as [|x a IH]; intros [|y b]; simpl; auto.
+  destruct (N.ltb_spec x y), (N.ltb_spec y x); auto; lia.
+Qed.
+Lemma path_leb_antisym a b : path_leb a b = true -> path_leb b a = true -> a = b.
+Proof.
+  revert b; induction a as [|x a IH]; intros [|y b]; simpl; auto; try discriminate.
+  destruct (N.ltb_spec x y), (N.ltb_spec y x); try discriminate; try lia.
+  intros H1 H2. assert (x = y) by lia. subst. f_equal. now apply IH.
+Qed.
+Lemma path_leb_trans a b c : path_leb a b = true -> path_leb b c = true -> path_leb a c = true.
+Proof.
+  revert b c; induction a as [|x a IH]; intros [|y b] [|z c]; simpl; auto; try discriminate.
+  destruct (N.ltb_spec x y), (N.ltb_spec y x), (N.ltb_spec y z), (N.ltb_spec z y), (N.ltb_spec x z), (N.ltb_spec z x);
+    try discriminate; try lia; auto.
+  apply IH.
+Qed.
+
+Inductive sorted_l : list fleaf -> Prop :=
+| sorted_nil : sorted_l []
+| sorted_cons x l : sorted_l l -> (forall y, In y l -> path_leb (fst x) (fst y) = true) -> sorted_l (x :: l).
+
+Lemma insert_leaf_in x l y : In y (insert_leaf x l) <-> y = x \/ In y l.
+Proof.
+  induction l as [|z r IH]; simpl; [intuition|].
+  destruct (path_leb (fst x) (fst z)); simpl; [intuition|]. rewrite IH. intuition.
+Qed.
+Lemma insert_sorted x l : sorted_l l -> sorted_l (insert_leaf x l).
+Proof.
+  induction 1 as [|z r Hs IH Hz]; simpl.
+  - constructor; [constructor|]. intros y [].
+  - destruct (path_leb (fst x) (fst z)) eqn:E.
+    + constructor; [now constructor|]. intros y [<-|Hy]; [exact E|]. eapply path_leb_trans; [exact E|]. now apply Hz.
+    + constructor; [exact IH|]. intros y Hy. apply insert_leaf_in in Hy as [->|Hy]; [|now apply Hz].
+      destruct (path_leb_total (fst x) (fst z)); congruence.
+Qed.
+Lemma sort_sorted l : sorted_l (sort_leaves l).
+Proof. induction l as [|x r IH]; simpl; [constructor|]. now apply insert_sorted. Qed.
+
+Lemma insert_comm x y l : sorted_l l -> fst x <> fst y ->
+  insert_leaf x (insert_leaf y l) = insert_leaf y (insert_leaf x l).
+Proof.
+  intros Hs Hne. induction Hs as [|z r Hs IH Hz].
+  - simpl. destruct (path_leb (fst x) (fst y)) eqn:A, (path_leb (fst y) (fst x)) eqn:B; auto.
+    + exfalso. apply Hne. now apply path_leb_antisym.
+    + destruct (path_leb_total (fst x) (fst y)); congruence.
+  - cbn [insert_leaf].
+    destruct (path_leb (fst y) (fst z)) eqn:Y, (path_leb (fst x) (fst z)) eqn:X; cbn [insert_leaf]; rewrite ?X, ?Y.
+    + destruct (path_leb (fst x) (fst y)) eqn:A, (path_leb (fst y) (fst x)) eqn:B; auto.
+      * exfalso. apply Hne. now apply path_leb_antisym.
+      * destruct (path_leb_total (fst x) (fst y)); congruence.
+    + (* y <= z < x *)
+      assert (path_leb (fst x) (fst y) = false).
+      { destruct (path_leb (fst x) (fst y)) eqn:A; [|reflexivity]. rewrite (path_leb_trans _ _ _ A Y) in X. discriminate. }
+      now rewrite H.
+    + assert (path_leb (fst y) (fst x) = false).
+      { destruct (path_leb (fst y) (fst x)) eqn:A; [|reflexivity]. rewrite (path_leb_trans _ _ _ A X) in Y. discriminate. }
+      now rewrite H.
+    + now rewrite IH.
+Qed.
+
+Lemma sort_leaves_perm l l' : Permutation l l' -> NoDup (map fst l) -> sort_leaves l = sort_leaves l'.
+Proof.
+  induction 1 as [|x l l' HP IH|x y l|l l' l'' HP1 IH1 HP2 IH2]; intros ND; cbn [sort_leaves fold_right map] in *.
+  - reflexivity.
+  - inversion ND; subst. fold (sort_leaves l) (sort_leaves l'). now rewrite IH.
+  - fold (sort_leaves l). apply insert_comm; [apply sort_sorted|].
+    inversion ND as [|? ? Hn _]; subst. intros E. apply Hn. left. now symmetry.
+  - rewrite IH1 by exact ND. apply IH2. eapply Permutation_NoDup; [|exact ND]. now apply Permutation_map.
+Qed.
+
+Lemma Permutation_concat' {A} (ss ss' : list (list A)) : Permutation ss ss' -> Permutation (concat ss) (concat ss').
+Proof.
+  induction 1 as [|x l l' HP IH|x y l|l l' l'' HP1 IH1 HP2 IH2]; cbn [concat].
+  - constructor.
+  - now apply Permutation_app_head.
+  - rewrite !app_assoc. apply Permutation_app_tail, Permutation_app_comm.
+  - eapply Permutation_trans; eauto.
+Qed.
+
+(* merging the states in any argument order rebuilds the same graph (paths of distinct leaves are distinct) *)
+Theorem merge_any_order g ss ss' :
+  Permutation ss ss' -> NoDup (map fst (concat ss)) -> merge g ss = merge g ss'.
+Proof. intros HP ND. unfold merge. do 2 f_equal. exact (sort_leaves_perm _ _ (Permutation_concat' _ _ HP) ND). Qed.
+
+(* merge of a filtered split is the plain round trip, provided the leaves come out of flatten in sorted path order
+   (what FlatState.from_sorted_keys_values relies on; checked for every generated graph) *)
+Theorem merge_split ti fs h v g bs ls :
+  flatten h v = Some (g, ls) -> split ti fs h v = Some (g, bs) ->
+  NoDup (map fst ls) -> sort_leaves ls = ls ->
+  merge g bs = unflatten g (map snd ls).
+Proof.
+  intros F S ND Srt. unfold split in S. rewrite F in S. unfold merge. destruct fs as [|f fs].
+  - inversion S; subst. cbn [concat]. now rewrite app_nil_r, Srt.
+  - destruct (split_leaves ti (f :: fs) ls) as [bs0|] eqn:E; [|discriminate]. inversion S; subst bs0.
+    destruct (split_leaves_spec _ _ _ _ E) as (_ & P & _).
+    do 2 f_equal. rewrite <- Srt. apply (sort_leaves_perm _ _ P).
+    eapply Permutation_NoDup; [|exact ND]. apply Permutation_map. now apply Permutation_sym.
+Qed.
+
+(* ------------------------------------------------------------------------------------------------ *)
+(* 7. update: in place, identity and structure kept                                                   *)
+
+Lemma nth_error_set_nth_eq {A} (l : list A) n x : n < length l -> nth_error (set_nth n x l) n = Some x.
+Proof. revert n; induction l as [|y r IH]; intros [|n] H; simpl in *; try lia; [reflexivity|]. apply IH. lia. Qed.
+Lemma nth_error_set_nth_ne {A} (l : list A) n m x : n <> m -> nth_error (set_nth n x l) m = nth_error l m.
+Proof. revert n m; induction l as [|y r IH]; intros [|n] [|m] H; simpl; try reflexivity; try congruence. apply IH. congruence. Qed.
+Lemma set_nth_length {A} (l : list A) n x : length (set_nth n x l) = length l.
+Proof. revert n; induction l as [|y r IH]; intros [|n]; simpl; auto. Qed.
+
+(* two heaps with the same nodes (Variables may differ in payload) resolve every path alike *)
+Definition same_nodes (h h' : heap) : Prop :=
+  length h' = length h /\
+  (forall l ty attrs, nth_error h l = Some (ONode ty attrs) <-> nth_error h' l = Some (ONode ty attrs)).
+
+Lemma resolve_same_nodes h h' : same_nodes h h' -> forall fuel v p, resolve fuel h' v p = resolve fuel h v p.
+Proof.
+  intros [L N]. induction fuel as [|f IH]; intros v p; [reflexivity|]. cbn [resolve].
+  destruct p as [|k r]; [reflexivity|]. destruct v as [l| | |kd xs]; try reflexivity.
+  - destruct (nth_error h l) as [[ty attrs|t pl m]|] eqn:E.
+    + rewrite (proj1 (N _ _ _) E). destruct (kassoc k attrs); [apply IH|reflexivity].
+    + destruct (nth_error h' l) as [[ty' attrs'|t' pl' m']|] eqn:E'; try reflexivity.
+      apply N in E'. congruence.
+    + destruct (nth_error h' l) as [[ty' attrs'|t' pl' m']|] eqn:E'; try reflexivity.
+      apply N in E'. congruence.
+  - destruct (kassoc k xs); [apply IH|reflexivity].
+Qed.
+
+Theorem update1_spec h root pl h' :
+  update1 h root pl = Some h' ->
+  exists l t p0 m0 t' p' m',
+    at_path h root (fst pl) = Some (VRef l) /\ snd pl = LVar t' p' m' /\
+    nth_error h l = Some (OVar t p0 m0) /\ nth_error h' l = Some (OVar t p' m') /\
+    (forall l', l' <> l -> nth_error h' l' = nth_error h l') /\ same_nodes h h'.
+Proof.
+  unfold update1, at_path. destruct (resolve (S (length (fst pl))) h root (fst pl)) as [[l| | |]|] eqn:R; try discriminate.
+  destruct (snd pl) as [t' p' m'|]; [|discriminate].
+  destruct (nth_error h l) as [[|t p0 m0]|] eqn:E; try discriminate. intros H; inversion H; subst h'; clear H.
+  assert (Hl : l < length h) by (apply nth_error_Some; congruence).
+  exists l, t, p0, m0, t', p', m'. repeat split; auto.
+  - now apply nth_error_set_nth_eq.
+  - intros l' Hne. apply nth_error_set_nth_ne. congruence.
+  - apply set_nth_length.
+  - intros Hn. destruct (Nat.eq_dec l l0) as [<-|Hne]; [congruence|]. now rewrite nth_error_set_nth_ne.
+  - intros Hn. destruct (Nat.eq_dec l l0) as [<-|Hne].
+    + rewrite nth_error_set_nth_eq in Hn by exact Hl. discriminate.
+    + now rewrite nth_error_set_nth_ne in Hn.
+Qed.
+
+Lemma same_nodes_refl h : same_nodes h h.  Proof. split; [reflexivity|tauto]. Qed.
+Lemma same_nodes_trans a b c : same_nodes a b -> same_nodes b c -> same_nodes a c.
+Proof. intros [L1 N1] [L2 N2]. split; [congruence|]. intros l ty attrs. rewrite N1. apply N2. Qed.
+
+(* update keeps every object where it is: no node changes at all, every Variable keeps its location and type;
+   a Variable that no path of the state leads to keeps its value and metadata as well *)
+Theorem update_frame h root st : forall h', update h root st = Some h' ->
+  same_nodes h h' /\
+  (forall l t p m, nth_error h l = Some (OVar t p m) -> exists p' m', nth_error h' l = Some (OVar t p' m')) /\
+  (forall l, (forall pl, In pl st -> at_path h root (fst pl) <> Some (VRef l)) -> nth_error h' l = nth_error h l).
+Proof.
+  revert h; induction st as [|pl r IH]; intros h h' H; cbn [update] in H.
+  - inversion H; subst. split; [apply same_nodes_refl|]. split; eauto.
+  - destruct (update1 h root pl) as [h1|] eqn:E1; [|discriminate].
+    destruct (update1_spec _ _ _ _ E1) as (l & t & p0 & m0 & t' & p' & m' & R & _ & A & B & C & SN).
+    destruct (IH _ _ H) as (SN2 & V2 & U2). split; [eapply same_nodes_trans; eauto|]. split.
+    + intros l0 t0 p1 m1 Hl0. destruct (Nat.eq_dec l0 l) as [->|Hne].
+      * rewrite A in Hl0. inversion Hl0; subst. apply (V2 _ _ _ _ B).
+      * rewrite <- (C _ Hne) in Hl0. apply (V2 _ _ _ _ Hl0).
+    + intros l0 Hno. rewrite U2.
+      * apply C. intros ->. apply (Hno pl); [now left|exact R].
+      * intros pl0 Hin. unfold at_path. rewrite (resolve_same_nodes _ _ SN). apply Hno. now right.
+Qed.
+
+(* the last state entry written through a path is what the Variable holds afterwards *)
+Theorem update_last h root st pl h' t' p' m' :
+  update h root (st ++ [pl]) = Some h' -> snd pl = LVar t' p' m' ->
+  exists l t, at_path h root (fst pl) = Some (VRef l) /\ nth_error h' l = Some (OVar t p' m').
+Proof.
+  revert h; induction st as [|x r IH]; intros h H S; cbn [app update] in H.
+  - destruct (update1 h root pl) as [h1|] eqn:E1; [|discriminate]. inversion H; subst h1.
+    destruct (update1_spec _ _ _ _ E1) as (l & t & p0 & m0 & t2 & p2 & m2 & R & S2 & A & B & _).
+    rewrite S in S2. inversion S2; subst. eauto.
+  - destruct (update1 h root x) as [h1|] eqn:E1; [|discriminate].
+    destruct (update1_spec _ _ _ _ E1) as (_ & _ & _ & _ & _ & _ & _ & _ & _ & _ & _ & _ & SN).
+    destruct (IH _ H S) as (l & t & R & B). exists l, t. split; [|exact B].
+    unfold at_path in *. now rewrite <- (resolve_same_nodes _ _ SN).
+Qed.
+
+(* ------------------------------------------------------------------------------------------------ *)
+(* 8. pop: only removes attributes that hold Variables selected by a filter                           *)
+
+(* what pop may do to a heap: Variables untouched; a node keeps its type and loses some attributes *)
+Definition pop_rel (h h' : heap) : Prop :=
+  length h' = length h /\
+  (forall l t p m, nth_error h l = Some (OVar t p m) <-> nth_error h' l = Some (OVar t p m)) /\
+  (forall l ty attrs', nth_error h' l = Some (ONode ty attrs') ->
+     exists attrs, nth_error h l = Some (ONode ty attrs) /\ incl attrs' attrs).
+Lemma pop_rel_refl h : pop_rel h h.
+Proof. split; [reflexivity|]. split; [tauto|]. intros l ty a H. exists a. split; [exact H|apply incl_refl]. Qed.
+Lemma pop_rel_trans a b c : pop_rel a b -> pop_rel b c -> pop_rel a c.
+Proof.
+  intros (L1 & V1 & N1) (L2 & V2 & N2). split; [congruence|]. split.
+  - intros l t p m. rewrite V1. apply V2.
+  - intros l ty attrs' H. destruct (N2 _ _ _ H) as (a2 & H2 & I2). destruct (N1 _ _ _ H2) as (a1 & H1 & I1).
+    exists a1. split; [exact H1|]. eapply incl_tran; eauto.
+Qed.
+Lemma kremove_incl k xs : incl (kremove k xs) xs.
+Proof. induction xs as [|[k' v] r IH]; cbn [kremove]; [apply incl_refl|]. destruct (N.eqb k k'); [apply incl_tl, incl_refl|].
+  intros x [<-|H]; [now left|right; now apply IH]. Qed.
+
+(* every recorded leaf is a Variable of the original heap that its filter selects at the recorded path *)
+Definition out_ok (ti : tyinfo) (fs : list nfilt) (h : heap) (out : list (list fleaf)) : Prop :=
+  length out = length fs /\
+  forall i b x, nth_error out i = Some b -> In x b ->
+    first_idx fs (leaf_view ti x 0) = i /\ exists l t p m, snd x = LVar t p m /\ nth_error h l = Some (OVar t p m).
+
+Lemma add_bucket_length i x bs : length (add_bucket i x bs) = length bs.
+Proof. revert i; induction bs as [|b r IH]; intros [|i]; simpl; auto. Qed.
+Lemma add_bucket_in i x bs j b y : nth_error (add_bucket i x bs) j = Some b -> In y b ->
+  (j = i /\ y = x) \/ (exists b0, nth_error bs j = Some b0 /\ In y b0).
+Proof.
+  revert i j; induction bs as [|b0 r IH]; intros i j H Hy.
+  - destruct i, j; discriminate.
+  - destruct i as [|i], j as [|j]; cbn [add_bucket nth_error] in H.
+    + inversion H; subst b. apply in_app_or in Hy as [Hy|[<-|[]]]; [right; exists b0; split; [reflexivity|exact Hy]|left; auto].
+    + right. exists b. split; [exact H|exact Hy].
+    + inversion H; subst b. right. exists b0. split; [reflexivity|exact Hy].
+    + destruct (IH _ _ H Hy) as [[-> ->]|X]; [left; auto|right; exact X].
+Qed.
+
+Definition PopGood ti fs h0 (s s' : pst) : Prop :=
+  pop_rel (p_heap s) (p_heap s') /\ (out_ok ti fs h0 (p_out s) -> pop_rel h0 (p_heap s) -> out_ok ti fs h0 (p_out s')).
+
+Lemma pitems_good ti fs h0 rec :
+  (forall p parent k v s s', rec p parent k v s = Some s' -> PopGood ti fs h0 s s') ->
+  forall xs p parent s s', pitems_with rec p parent xs s = Some s' -> PopGood ti fs h0 s s'.
+Proof.
+  intros Hrec xs; induction xs as [|[k v] r IH]; intros p parent s s' H; cbn [pitems_with] in H.
+  - inversion H; subst. split; [apply pop_rel_refl|auto].
+  - destruct (rec p parent k v s) as [s1|] eqn:E1; [|discriminate].
+    destruct (Hrec _ _ _ _ _ _ E1) as [R1 O1]. destruct (IH _ _ _ _ H) as [R2 O2].
+    split; [eapply pop_rel_trans; eauto|]. intros Ho Hr. apply O2; [now apply O1|]. eapply pop_rel_trans; eauto.
+Qed.
+
+Theorem gpop_good ti fs h0 : forall fuel p parent k v s s', gpop fuel ti fs p parent k v s = Some s' -> PopGood ti fs h0 s s'.
+Proof.
+  induction fuel as [|f IH]; intros p parent k v s s' H; [discriminate|]. cbn [gpop] in H.
+  destruct v as [l|x|x|kd xs].
+  - destruct (nth_error (p_heap s) l) as [[ty attrs|t pl m]|] eqn:E; [| |discriminate].
+    + destruct (existsb (Nat.eqb l) (p_visited s)).
+      * inversion H; subst. split; [apply pop_rel_refl|auto].
+      * exact (pitems_good ti fs h0 _ (IH) _ _ _ _ _ H).
+    + destruct (existsb (Nat.eqb l) (p_popped s)).
+      { inversion H; subst. split; [apply pop_rel_refl|auto]. }
+      destruct (Nat.ltb_spec (first_idx fs (leaf_view ti (p ++ [k], LVar t pl m) 0)) (length fs)) as [Hi|Hi].
+      2:{ inversion H; subst. split; [apply pop_rel_refl|auto]. }
+      destruct parent as [ploc|]; [|discriminate].
+      destruct (nth_error (p_heap s) ploc) as [[pty pattrs|? ? ?]|] eqn:Ep; try discriminate.
+      inversion H; subst s'; clear H. unfold PopGood. cbn [p_heap p_out].
+      assert (Hpl : ploc < length (p_heap s)) by (apply nth_error_Some; congruence).
+      assert (R : pop_rel (p_heap s) (set_nth ploc (ONode pty (kremove k pattrs)) (p_heap s))).
+      { split; [apply set_nth_length|]. split.
+        - intros l0 t0 p0 m0. destruct (Nat.eq_dec ploc l0) as [<-|Hne].
+          + rewrite nth_error_set_nth_eq by exact Hpl. rewrite Ep. split; discriminate.
+          + now rewrite nth_error_set_nth_ne.
+        - intros l0 ty0 a0 H0. destruct (Nat.eq_dec ploc l0) as [<-|Hne].
+          + rewrite nth_error_set_nth_eq in H0 by exact Hpl. inversion H0; subst. exists pattrs. split; [exact Ep|apply kremove_incl].
+          + rewrite nth_error_set_nth_ne in H0 by exact Hne. exists a0. split; [exact H0|apply incl_refl]. }
+      split; [exact R|]. intros [Lo Ho] Hr. split; [now rewrite add_bucket_length|].
+      intros i b x Hb Hx. destruct (add_bucket_in _ _ _ _ _ _ Hb Hx) as [[-> ->]|(b0 & Hb0 & Hx0)].
+      * split; [reflexivity|]. exists l, t, pl, m. split; [reflexivity|]. destruct Hr as (_ & V & _). now apply V.
+      * exact (Ho _ _ _ Hb0 Hx0).
+  - inversion H; subst. split; [apply pop_rel_refl|auto].
+  - inversion H; subst. split; [apply pop_rel_refl|auto].
+  - exact (pitems_good ti fs h0 _ (IH) _ _ _ _ _ H).
+Qed.
+
+Theorem pop_spec ti fs h root h' out :
+  pop ti fs h root = Some (h', out) ->
+  pop_rel h h' /\ out_ok ti fs h out.
+Proof.
+  unfold pop. destruct root as [l| | |]; try discriminate.
+  destruct (nth_error h l) as [[ty attrs|]|] eqn:E; try discriminate.
+  destruct (pitems_with _ _ _ _ _) as [s|] eqn:P; [|discriminate]. intros H; inversion H; subst; clear H.
+  destruct (pitems_good ti fs h _ (gpop_good ti fs h (fuel_for h (VRef l))) _ _ _ _ _ P) as [R O].
+  cbn [p_heap p_out] in *. split; [exact R|]. apply O; [|apply pop_rel_refl].
+  split; [apply repeat_length|]. intros i b x Hb Hx. exfalso.
+  assert (b = []). { clear - Hb. revert i Hb. induction (length fs) as [|n IHn]; intros [|i] Hb; simpl in Hb; try discriminate; [now inversion Hb|eauto]. }
+  subst b. exact Hx.
+Qed.
+
+(* ------------------------------------------------------------------------------------------------ *)
+(* 9. leaves come out of flatten in strictly increasing path order when sibling keys are sorted       *)
+
+Fixpoint keys_inc (ks : list key) : bool :=
+  match ks with
+  | [] => true
+  | k :: r => forallb (fun k' => (k <? k')%N) r && keys_inc r
+  end.
+Fixpoint wf_value (v : value) : bool :=
+  match v with
+  | VTree _ xs => keys_inc (map fst xs) &&
+                  (fix go (xs : list (key * value)) : bool := match xs with [] => true | (_, x) :: r => wf_value x && go r end) xs
+  | _ => true
+  end.
+Definition wf_items (xs : list (key * value)) : bool := keys_inc (map fst xs) && forallb (fun kv => wf_value (snd kv)) xs.
+Definition wf_heap (h : heap) : bool :=
+  forallb (fun o => match o with ONode _ attrs => wf_items attrs | OVar _ _ _ => true end) h.
+Lemma wf_value_tree kd xs : wf_value (VTree kd xs) = wf_items xs.
+Proof. unfold wf_items. cbn [wf_value]. f_equal. induction xs as [|[k x] r IH]; cbn [forallb snd]; [reflexivity|]. now rewrite IH. Qed.
+
+Definition path_lt (a b : path) : Prop := path_leb a b = true /\ a <> b.
+Inductive ssorted : list fleaf -> Prop :=
+| ssorted_nil : ssorted []
+| ssorted_cons x l : ssorted l -> (forall y, In y l -> path_lt (fst x) (fst y)) -> ssorted (x :: l).
+
+Lemma ssorted_app l1 l2 : ssorted l1 -> ssorted l2 -> (forall x y, In x l1 -> In y l2 -> path_lt (fst x) (fst y)) -> ssorted (l1 ++ l2).
+Proof.
+  induction 1 as [|x l Hs IH Hx]; intros H2 Hc; simpl; [exact H2|].
+  constructor.
+  - apply IH; [exact H2|]. intros a b Ha Hb. apply Hc; [now right|exact Hb].
+  - intros y Hy. apply in_app_or in Hy as [Hy|Hy]; [now apply Hx|]. apply Hc; [now left|exact Hy].
+Qed.
+Lemma ssorted_nodup l : ssorted l -> NoDup (map fst l).
+Proof.
+  induction 1 as [|x l Hs IH Hx]; simpl; constructor; [|exact IH].
+  intros Hin. apply in_map_iff in Hin as (y & E & Hy). destruct (Hx _ Hy) as [_ Hne]. congruence.
+Qed.
+Lemma ssorted_sort l : ssorted l -> sort_leaves l = l.
+Proof.
+  induction 1 as [|x l Hs IH Hx]; cbn [sort_leaves fold_right]; [reflexivity|].
+  fold (sort_leaves l). rewrite IH. destruct l as [|y r]; [reflexivity|]. cbn [insert_leaf].
+  destruct (Hx y (or_introl eq_refl)) as [Hle _]. now rewrite Hle.
+Qed.
+Lemma path_lt_key p k1 q1 k2 q2 : (k1 < k2)%N -> path_lt (p ++ k1 :: q1) (p ++ k2 :: q2).
+Proof.
+  intros Hk. split.
+  - induction p as [|x p IH]; simpl.
+    + destruct (N.ltb_spec k1 k2); [reflexivity|lia].
+    + now rewrite N.ltb_irrefl.
+  - intros E. apply app_inv_head in E. inversion E. lia.
+Qed.
+
+(* all new leaves lie below p; strictly sorted *)
+Definition Srt (p : path) (s s' : fst_) : Prop :=
+  exists new, snd s' = snd s ++ new /\ ssorted new /\ forall y, In y new -> exists q, fst y = p ++ q.
+Definition SrtItems (p : path) (ks : list key) (s s' : fst_) : Prop :=
+  exists new, snd s' = snd s ++ new /\ ssorted new /\ forall y, In y new -> exists k q, In k ks /\ fst y = p ++ k :: q.
+
+Lemma keys_inc_head k r k' : keys_inc (k :: r) = true -> In k' r -> (k < k')%N.
+Proof. cbn [keys_inc]. intros H Hin. apply andb_true_iff in H as [H _]. rewrite forallb_forall in H. apply N.ltb_lt. now apply H. Qed.
+
+Lemma items_sorted rec :
+  (forall p v s a s', wf_value v = true -> rec p v s = Some (a, s') -> Srt p s s') ->
+  forall xs p s as_ s', wf_items xs = true -> items_with rec p xs s = Some (as_, s') -> SrtItems p (map fst xs) s s'.
+Proof.
+  intros Hrec xs; induction xs as [|[k v] r IH]; intros p s as_ s' W H.
+  - cbn in H. inversion H; subst. exists []. rewrite app_nil_r. repeat split; [constructor|]. intros y [].
+  - rewrite items_with_cons in H.
+    destruct (rec (p ++ [k]) v s) as [[a s1]|] eqn:E1; [|discriminate].
+    destruct (items_with rec p r s1) as [[as1 s2]|] eqn:E2; [|discriminate]. inversion H; subst; clear H.
+    unfold wf_items in W. cbn [map fst forallb snd] in W. apply andb_true_iff in W as [Wk Wv]. apply andb_true_iff in Wv as [Wv Wr].
+    assert (Wr' : wf_items r = true).
+    { unfold wf_items. rewrite Wr, andb_true_r. cbn [keys_inc] in Wk. now apply andb_true_iff in Wk as [_ Wk]. }
+    destruct (Hrec _ _ _ _ _ Wv E1) as (n1 & S1 & So1 & P1). destruct (IH _ _ _ _ Wr' E2) as (n2 & S2 & So2 & P2).
+    exists (n1 ++ n2). split; [now rewrite S2, S1, app_assoc|]. split.
+    + apply ssorted_app; auto. intros x y Hx Hy. destruct (P1 _ Hx) as (q1 & ->). destruct (P2 _ Hy) as (k2 & q2 & Hk2 & ->).
+      rewrite <- app_assoc. cbn [app]. apply path_lt_key. eapply keys_inc_head; eauto.
+    + intros y Hy. apply in_app_or in Hy as [Hy|Hy].
+      * destruct (P1 _ Hy) as (q & ->). exists k, q. split; [now left|]. now rewrite <- app_assoc.
+      * destruct (P2 _ Hy) as (k2 & q2 & Hk2 & ->). exists k2, q2. split; [now right|reflexivity].
+Qed.
+
+Lemma srt_of_items p ks s s' : SrtItems p ks s s' -> Srt p s s'.
+Proof. intros (n & S & So & P). exists n. repeat split; auto. intros y Hy. destruct (P _ Hy) as (k & q & _ & ->). eauto. Qed.
+
+Theorem flat_sorted h : wf_heap h = true ->
+  forall fuel p v s a s', wf_value v = true -> flat fuel h p v s = Some (a, s') -> Srt p s s'.
+Proof.
+  intros Wh. induction fuel as [|f IH]; intros p v s a s' Wv H; [discriminate|]. cbn [flat] in H.
+  assert (Nil : forall s0 : fst_, Srt p s0 s0).
+  { intros s0. exists []. rewrite app_nil_r. repeat split; [constructor|]. intros y []. }
+  destruct v as [l|x|x|kd xs].
+  - destruct (index_of l (fst s)); [inversion H; subst; apply Nil|].
+    destruct (nth_error h l) as [[ty attrs|vty pl m]|] eqn:Eh; [| |discriminate].
+    + destruct (items_with (flat f h) p attrs (fst s ++ [l], snd s)) as [[as_ s1]|] eqn:Eit; [|discriminate].
+      inversion H; subst; clear H.
+      assert (Wa : wf_items attrs = true).
+      { unfold wf_heap in Wh. rewrite forallb_forall in Wh. exact (Wh _ (nth_error_In _ _ Eh)). }
+      exact (srt_of_items _ _ _ _ (items_sorted _ (IH) _ _ _ _ _ Wa Eit)).
+    + inversion H; subst. exists [(p, LVar vty pl m)]. split; [reflexivity|]. split.
+      * constructor; [constructor|]. intros y [].
+      * intros y [<-|[]]. exists []. now rewrite app_nil_r.
+  - inversion H; subst; apply Nil.
+  - inversion H; subst. exists [(p, LArr x)]. split; [reflexivity|]. split.
+    + constructor; [constructor|]. intros y [].
+    + intros y [<-|[]]. exists []. now rewrite app_nil_r.
+  - destruct (items_with (flat f h) p xs s) as [[as_ s1]|] eqn:Eit; [|discriminate]. inversion H; subst; clear H.
+    rewrite wf_value_tree in Wv. exact (srt_of_items _ _ _ _ (items_sorted _ (IH) _ _ _ _ _ Wv Eit)).
+Qed.
+
+Theorem flatten_sorted h v g ls : wf_heap h = true -> wf_value v = true -> flatten h v = Some (g, ls) ->
+  ssorted ls.
+Proof.
+  intros Wh Wv. unfold flatten. destruct (flat _ h [] v ([], [])) as [[a s]|] eqn:E; [|discriminate].
+  intros H; inversion H; subst. destruct (flat_sorted h Wh _ _ _ _ _ _ Wv E) as (n & S & So & _). cbn in S. now rewrite S.
+Qed.
+
+(* the statement of the property for graphs whose sibling keys are sorted (Object sorts vars(), dicts sort keys,
+   list / tuple indices ascend): a filtered split, merged back in ANY order of the states, rebuilds the graph *)
+Theorem merge_split_any_order ti fs h v g bs bs' ls :
+  wf_heap h = true -> wf_value v = true ->
+  flatten h v = Some (g, ls) -> split ti fs h v = Some (g, bs) -> Permutation bs bs' ->
+  merge g bs' = unflatten g (map snd ls).
+Proof.
+  intros Wh Wv F S P. pose proof (flatten_sorted _ _ _ _ Wh Wv F) as So.
+  rewrite <- (merge_split ti fs h v g bs ls F S (ssorted_nodup _ So) (ssorted_sort _ So)).
+  symmetry. apply merge_any_order; [exact P|].
+  unfold split in S. rewrite F in S. destruct fs as [|f fs].
+  - inversion S; subst. cbn [concat]. rewrite app_nil_r. now apply ssorted_nodup.
+  - destruct (split_leaves ti (f :: fs) ls) as [bs0|] eqn:E; [|discriminate]. inversion S; subst bs0.
+    destruct (split_leaves_spec _ _ _ _ E) as (_ & Pm & _).
+    eapply Permutation_NoDup; [|exact (ssorted_nodup _ So)]. apply Permutation_map. now apply Permutation_sym.
+Qed.
